@@ -3,9 +3,8 @@
 
    Covered (transliterated): the loop over application names in sorted order; copying of mixin types and views
    (`-|>`, looked up in the module AS IT IS AT THAT MOMENT, so an earlier application sees what a later one has
-   not received yet); collectorPubSubCalls / applyAttributes / mergeAttrs including Go's pointer sharing:
-   `dst[k] = v` stores the collector statement's own *Attribute, so a later append through one holder is seen
-   by every holder and by the collector statement itself.
+   not received yet); collectorPubSubCalls / applyAttributes / mergeAttrs (which copies what it stores since
+   ee84ca3: no attribute object is shared, a merge changes only its destination).
    Not covered: fixTypeRefScope / fixParamTypeRef (rewrites of deep type references), inferTypes (view
    expression types), renestTypes (off unless SYSL_DEV_RENEST_FLATTENED_TYPES is set), lint, checkEndpointCalls
    (read-only). The harness generates inputs on which these leave the projected parts alone and the Go oracle
@@ -23,7 +22,7 @@ Require Import Verif.Base.Harness.
    AArr meta es: an array attribute: its elements, and meta = the rest of the message (source context) *)
 Inductive attr := AVal (v:positive) | AArr (meta:positive) (es:list positive).
 
-(* C = what an attribute map holds: a value (outside), or a cell that may be shared (inside) *)
+(* C = what an attribute map holds (always `attr`; kept as a parameter of the spine) *)
 Inductive stmt (C:Type) :=
 | SCall (t e:positive) (a:list (positive * C))    (* target (identifier of the list of name parts), endpoint, attrs *)
 | SAction (act:positive) (a:list (positive * C))
@@ -78,162 +77,81 @@ Definition mix_one {C} (m:list (positive * app C)) (a:app C) (src:positive) : ap
   end.
 Definition mix_all {C} (m:list (positive * app C)) (a:app C) : app C := fold_left (mix_one m) (a_mixins a) a.
 
-(* ---- collector, with sharing ---- *)
-Inductive cell := Own (a:attr) | Shared (j:nat).   (* Shared j: the attribute object of collector statement j, same key *)
-
-Definition ctab := list (list (positive * attr)).  (* current attributes of the collector statements *)
-
-Definition tab_get (ct:ctab) (j:nat) (k:positive) : option attr :=
-  match nth_error ct j with Some a => lookup k a | None => None end.
-Fixpoint tab_set (ct:ctab) (j:nat) (k:positive) (v:attr) : ctab :=
-  match ct, j with
-  | [], _ => []
-  | a :: r, O => put k v a :: r
-  | a :: r, S j' => a :: tab_set r j' k v
-  end.
-
-Definition deref (ct:ctab) (k:positive) (c:cell) : option attr :=
-  match c with Own a => Some a | Shared j => tab_get ct j k end.
-
-(* mergeAttrs(src = attributes of collector statement j, dst), one key *)
-Definition merge_key (j:nat) (k:positive) (st:list (positive * cell) * ctab) : list (positive * cell) * ctab :=
-  let (dst, ct) := st in
-  match tab_get ct j k with
-  | None => st
+(* ---- collector ----
+   mergeAttrs(src, dst) stores COPIES (proto.Clone) since ee84ca3: a merge changes only its destination, the collector
+   statement's own attributes stay what they were and nothing is shared between the places a statement is merged
+   into. One key: a new name is added, two arrays are concatenated, anything else is replaced. (`for k, v := range
+   src` runs in map order; every key touches dst[k] only, so the order is immaterial - the model takes key order.) *)
+Definition merge_key (src:list (positive * attr)) (k:positive) (dst:list (positive * attr)) : list (positive * attr) :=
+  match lookup k src with
+  | None => dst
   | Some v =>
-      match lookup k dst with
-      | None => (put k (Shared j) dst, ct)
-      | Some c =>
-          match deref ct k c, v with
-          | Some (AArr dm de), AArr _ ve =>       (* dstAttr.A.Elt = append(dstAttr.A.Elt, vAttr.A.Elt...) *)
-              match c with
-              | Own _ => (put k (Own (AArr dm (de ++ ve))) dst, ct)
-              | Shared j' => (dst, tab_set ct j' k (AArr dm (de ++ ve)))
-              end
-          | _, _ => (put k (Shared j) dst, ct)
-          end
+      match lookup k dst, v with
+      | Some (AArr dm de), AArr _ ve => put k (AArr dm (de ++ ve)) dst     (* dstAttr.A.Elt = append(dstAttr.A.Elt, clones...) *)
+      | _, _ => put k v dst                                                 (* dst[k] = clone(v) *)
       end
   end.
 
-Definition merge (j:nat) (dst:list (positive * cell)) (ct:ctab) : list (positive * cell) * ctab :=
-  match nth_error ct j with
-  | None => (dst, ct)
-  | Some src => fold_left (fun st k => merge_key j k st) (map fst src) (dst, ct)
-  end.
+Definition merge (src dst:list (positive * attr)) : list (positive * attr) :=
+  fold_left (fun d k => merge_key src k d) (map fst src) dst.
 
-Record cstate := { cs_tab : ctab; cs_bad : bool }.
-
-(* state-passing map over a list (the loops `for _, stmt := range stmts { applied = applyAttributes(src, stmt) || applied }`) *)
-Definition map_st {A S:Type} (f:A -> S -> A * S) : list A -> S -> list A * S :=
-  fix go (l:list A) (st:S) {struct l} : list A * S :=
-    match l with
-    | [] => ([], st)
-    | x :: r => let (x', s1) := f x st in let (r', s2) := go r s1 in (x' :: r', s2)
-    end.
-
-(* applyAttributes(src = collector statement j calling t <- e, dst) *)
-Fixpoint apply_stmt (j:nat) (t e:positive) (s:stmt cell) (st:cstate) {struct s} : stmt cell * cstate :=
+(* applyAttributes(src = a collector statement calling t <- e with attributes `src`, dst): every call statement of the
+   same target below dst, at any depth *)
+Fixpoint apply_stmt (src:list (positive * attr)) (t e:positive) (s:stmt attr) {struct s} : stmt attr :=
   match s with
-  | SCall t' e' a =>
-      if Pos.eqb t t' && Pos.eqb e e' then
-        let (a', ct') := merge j a (cs_tab st) in (SCall t' e' a', {| cs_tab := ct'; cs_bad := cs_bad st |})
-      else (s, st)
-  | SAction _ _ | SRet => (s, st)
-  | SBlock body => let (b', s1) := map_st (apply_stmt j t e) body st in (SBlock b', s1)
-  | SAlt ch => let (c', s1) := map_st (apply_stmt j t e) ch st in (SAlt c', s1)
-  | SBad => (s, {| cs_tab := cs_tab st; cs_bad := true |})
+  | SCall t' e' a => if Pos.eqb t t' && Pos.eqb e e' then SCall t' e' (merge src a) else s
+  | SBlock body => SBlock (map (apply_stmt src t e) body)
+  | SAlt ch => SAlt (map (apply_stmt src t e) ch)
+  | _ => s
   end.
 
-Definition apply_stmts (j:nat) (t e:positive) : list (stmt cell) -> cstate -> list (stmt cell) * cstate :=
-  map_st (apply_stmt j t e).
-
-(* for callEPName, callEndpoint := range app.Endpoints { skip the collector; apply to every statement } *)
-Fixpoint apply_eps (cn:positive) (j:nat) (t e:positive) (eps:list (positive * endpoint cell)) (st:cstate)
-  : list (positive * endpoint cell) * cstate :=
-  match eps with
-  | [] => ([], st)
-  | (n, ep) :: r =>
-      if Pos.eqb n cn then let (r', s2) := apply_eps cn j t e r st in ((n, ep) :: r', s2)
-      else
-        let (ss, s1) := apply_stmts j t e (e_stmts ep) st in
-        let (r', s2) := apply_eps cn j t e r s1 in
-        ((n, {| e_attrs := e_attrs ep; e_stmts := ss |}) :: r', s2)
-  end.
-
-(* one statement of the collector endpoint *)
-Definition collect_one (cn:positive) (j:nat) (s:stmt attr) (st:list (positive * endpoint cell) * cstate)
-  : list (positive * endpoint cell) * cstate :=
-  let (eps, cs) := st in
+(* ... which panics ("collector: unhandled type") on a statement without a kind, wherever it sits: the walk visits
+   every statement (`applied = applyAttributes(..) || applied` evaluates the call first) *)
+Fixpoint no_bad {C} (s:stmt C) : bool :=
   match s with
-  | SAction act _ =>
+  | SBad => false
+  | SBlock b => forallb no_bad b
+  | SAlt b => forallb no_bad b
+  | _ => true
+  end.
+
+Definition is_coll_stmt {C} (s:stmt C) : bool := match s with SAction _ _ | SCall _ _ _ => true | _ => false end.
+Definition is_call {C} (s:stmt C) : bool := match s with SCall _ _ _ => true | _ => false end.
+
+(* one statement of the collector endpoint (attributes of the statement = src) *)
+Definition collect_one (cn:positive) (s:stmt attr) (eps:list (positive * endpoint attr)) : list (positive * endpoint attr) :=
+  match s with
+  | SAction act src =>
       match lookup act eps with
-      | None => st
-      | Some ep =>
-          let (a', ct') := merge j (e_attrs ep) (cs_tab cs) in
-          (put act {| e_attrs := a'; e_stmts := e_stmts ep |} eps, {| cs_tab := ct'; cs_bad := cs_bad cs |})
+      | None => eps                                (* "calls non-existent endpoint": logged, skipped *)
+      | Some ep => put act {| e_attrs := merge src (e_attrs ep); e_stmts := e_stmts ep |} eps
       end
-  | SCall t e _ => apply_eps cn j t e eps cs
-  | _ => (eps, {| cs_tab := cs_tab cs; cs_bad := true |})
+  | SCall t e src =>                              (* for callEPName, callEndpoint := range app.Endpoints { skip the collector } *)
+      map (fun p => let '(n, ep) := p in
+             if Pos.eqb n cn then (n, ep)
+             else (n, {| e_attrs := e_attrs ep; e_stmts := map (apply_stmt src t e) (e_stmts ep) |})) eps
+  | _ => eps
   end.
 
-Fixpoint collect_all (cn:positive) (j:nat) (l:list (stmt attr)) (st:list (positive * endpoint cell) * cstate) :=
-  match l with
-  | [] => st
-  | s :: r => collect_all cn (S j) r (collect_one cn j s st)
-  end.
-
-(* load / observe: a decoded module shares nothing; what is serialised are the values *)
-Definition load_attrs (a:list (positive * attr)) : list (positive * cell) := map (fun p => (fst p, Own (snd p))) a.
-Fixpoint load_stmt (s:stmt attr) : stmt cell :=
-  match s with
-  | SCall t e a => SCall t e (load_attrs a)
-  | SAction x a => SAction x (load_attrs a)
-  | SRet => SRet
-  | SBlock b => SBlock (map load_stmt b)
-  | SAlt ch => SAlt (map load_stmt ch)
-  | SBad => SBad
-  end.
-Definition load_ep (e:endpoint attr) : endpoint cell := {| e_attrs := load_attrs (e_attrs e); e_stmts := map load_stmt (e_stmts e) |}.
-
-Definition obs_cell (ct:ctab) (p:positive * cell) : positive * attr :=
-  (fst p, match deref ct (fst p) (snd p) with Some a => a | None => AVal 1 end).
-Definition obs_attrs (ct:ctab) (a:list (positive * cell)) : list (positive * attr) := map (obs_cell ct) a.
-Fixpoint obs_stmt (ct:ctab) (s:stmt cell) : stmt attr :=
-  match s with
-  | SCall t e a => SCall t e (obs_attrs ct a)
-  | SAction x a => SAction x (obs_attrs ct a)
-  | SRet => SRet
-  | SBlock b => SBlock (map (obs_stmt ct) b)
-  | SAlt ch => SAlt (map (obs_stmt ct) ch)
-  | SBad => SBad
-  end.
-Definition obs_ep (ct:ctab) (e:endpoint cell) : endpoint attr :=
-  {| e_attrs := obs_attrs ct (e_attrs e); e_stmts := map (obs_stmt ct) (e_stmts e) |}.
-
-Definition stmt_attrs (s:stmt attr) : list (positive * attr) :=
-  match s with SCall _ _ a | SAction _ a => a | _ => [] end.
-Definition set_stmt_attrs (s:stmt attr) (a:list (positive * attr)) : stmt attr :=
-  match s with SCall t e _ => SCall t e a | SAction x _ => SAction x a | _ => s end.
+(* does collectorPubSubCalls panic? on a collector statement that is neither action nor call, or - as soon as one
+   collector statement is a call - on a kind-less statement in any other endpoint. (Statement kinds never change, so
+   this can be decided up front; a panic discards everything done before it.) *)
+Definition collect_panics (cn:positive) (cstmts:list (stmt attr)) (eps:list (positive * endpoint attr)) : bool :=
+  existsb (fun s => negb (is_coll_stmt s)) cstmts ||
+  (existsb is_call cstmts &&
+   negb (forallb (fun p => Pos.eqb (fst p) cn || forallb no_bad (e_stmts (snd p))) eps)).
 
 (* collectorPubSubCalls(appName, app): None = panic *)
 Definition collector (cn:positive) (eps:list (positive * endpoint attr)) : option (list (positive * endpoint attr)) :=
   match lookup cn eps with
   | None => Some eps
   | Some cep =>
-      let ct0 := map stmt_attrs (e_stmts cep) in
-      let ieps := map (fun p => (fst p, load_ep (snd p))) eps in
-      let (ieps', cs) := collect_all cn O (e_stmts cep) (ieps, {| cs_tab := ct0; cs_bad := false |}) in
-      if cs_bad cs then None
-      else
-        let out := map (fun p => (fst p, obs_ep (cs_tab cs) (snd p))) ieps' in
-        (* the collector endpoint's own statements carry the (possibly grown) attribute objects *)
-        match lookup cn out with
-        | None => Some out
-        | Some c' =>
-            let stmts' := map (fun p => set_stmt_attrs (fst p) (snd p)) (combine (e_stmts c') (cs_tab cs)) in
-            Some (put cn {| e_attrs := e_attrs c'; e_stmts := stmts' |} out)
-        end
+      if collect_panics cn (e_stmts cep) eps then None
+      else Some (fold_left (fun x s => collect_one cn s x) (e_stmts cep) eps)
   end.
+
+Definition stmt_attrs (s:stmt attr) : list (positive * attr) :=
+  match s with SCall _ _ a | SAction _ a => a | _ => [] end.
 
 (* postProcess: `for _, appName := range appNames` (sorted) { app := mod.Apps[appName]; ... } - the module is a list
    sorted by name, so this is one pass over the list in which every application is rebuilt in place against the
